@@ -42,7 +42,27 @@ META = {
             "normalize z leaving exactly those tokens (the remaining-text computation of parse_text for that case is "
             "C11's T11.4, not repeated here). Still carried by the correspondence only: prefixed literals whose body "
             "is followed by other delimiters the scanner accepts (tab, newline, ';', '\"' ...), the #e/#i prefixes "
-            "and stacked prefixes (the printed-form-as-prefixed-literal stream uses single radix prefixes).",
+            "and stacked prefixes (the printed-form-as-prefixed-literal stream uses single radix prefixes). "
+            "UNPREFIXED DECIMAL LITERALS WITH A SIGNED EXPONENT (fix c1c04ca, known_findings C16-signed-exponent-literal): "
+            "string->number accepts 1e-7, 2.5E+3, .5e-1, but the pinned scanner ended the number token at the sign, so as "
+            "program text they were a symbol (unbound variable) or, with a leading dot, two data; marwood's printer never "
+            "produces such a spelling (it prints 0.0000001), so no printed-form stream could see it. The scanner model "
+            "(Lex.lean numberTail / dotNumberTail) now carries the three booleans of the Rust loops (mantissa, digits, "
+            "marker). Closed theorems: signed_exponent_is_number_token (for every decimal mantissa m = optional sign, "
+            "digits with at most one dot and at least one digit, marker e/E, sign, digit string d: m++[e,sign]++d "
+            "before anything that ends a number token - Stop: end of text, whitespace, bracket, quote, ';' ... - is "
+            "exactly one token of type Number spelled that text; d may be empty as far as the scanner goes), "
+            "signed_exponent_in_context / signed_exponent_scan (the token list), signed_exponent_literal_denotes "
+            "(parse_text of the spelling = the number parse_with_exactness makes of it in radix 10 = what "
+            "(string->number spelling) returns; the symbol fall-back exactly where string->number answers #f); the "
+            "pinned scanner is kept as numberTailPinned / dotNumberTailPinned: signed_exponent_was_symbol (same text, "
+            "first character a sign or digit: one Symbol token) and leading_dot_exponent_was_two_tokens (.5e-1 was "
+            ".5e and -1). Whether Rust's float parser accepts a given spelling is a FloatOps field (oracle on the wire). "
+            "The stream spelling-as-source-literal runs (quote <spelling>) through Vm::eval_text against "
+            "(string->number <spelling>) for spellings the printer produces, Rust's {:e} form of doubles with E / "
+            "explicit + variants, and a hand-written near-miss family (1e- 1e-x 1ee-7 .e-1 1e--7 1e+-7 1e-7x #x1e-7 ...): "
+            "whenever string->number gives a finite number the literal is that number, and an unprefixed spelling it "
+            "rejects (not starting with a dot) is not a number.",
     "technique": "Lean 4 proof (digit inverse by strong induction, structural sign and '/', parser fall-through) + randomized model-vs-implementation correspondence + implementation-vs-specification round trip",
 }
 MODULE = "Marwood.Proofs.C16"
@@ -60,6 +80,12 @@ THEOREMS = [
     "Marwood.Proofs.C16.literal_exact_in_context",
     "Marwood.Proofs.C16.literal_float",
     "Marwood.Proofs.C16.pinned_twos_complement_not_inverse",
+    "Marwood.Proofs.C16.signed_exponent_is_number_token",
+    "Marwood.Proofs.C16.signed_exponent_in_context",
+    "Marwood.Proofs.C16.signed_exponent_scan",
+    "Marwood.Proofs.C16.signed_exponent_literal_denotes",
+    "Marwood.Proofs.C16.signed_exponent_was_symbol",
+    "Marwood.Proofs.C16.leading_dot_exponent_was_two_tokens",
 ]
 PROFILE = "debug"
 
@@ -84,8 +110,25 @@ def is_nonfinite(spec):
     return (bits >> 52) & 0x7FF == 0x7FF
 
 
+def is_num(w):
+    return w[:4] in ("fix:", "big:", "rat:", "flo:")
+
+
 def spec_equal(req, impl, spec):
     # impl = `ok <text> <datum read back>`; the property: read back = z in value and exactness
+    if req.startswith("c16-source"):
+        # `ok <literal read> <string->number of the spelling>`: whenever string->number gives the spelling a
+        # number the unprefixed source literal is that number; an unprefixed spelling it rejects is no number
+        f = impl.split(" ")
+        if len(f) != 3 or f[0] != "ok":
+            return False
+        if is_num(f[2]):
+            # the property speaks of finite numbers (`inf`, `-inf`, `NaN` are symbols in program text)
+            return f[1] == f[2] or is_nonfinite("inexact:" + f[2][4:] if f[2].startswith("flo:") else "")
+        # (a leading dot is scan_dot, which ends its token at the first non-number character: `.6e+3-` is two tokens)
+        cps = req.split(" ")[2].split(",")
+        plain = "35" not in cps and cps[0] != "46"
+        return not (plain and f[2] == "b0" and is_num(f[1]))
     if req.startswith("c16-literal"):
         f = impl.split(" ")
         return len(f) == 3 and f[0] == "ok" and f[1] == f[2]
@@ -112,6 +155,13 @@ def streams(ctx):
     md, sd = correspond(ctx, "printed-form-as-prefixed-literal", cases, nontrivial,
                         spec_equal=lambda req, impl, spec: spec_equal(req, impl, spec))
     settle(ctx, md, sd)
+    # fix c1c04ca: decimal spellings with a signed exponent (1e-7, 2.5E+3, .5e-1) as unprefixed source literals
+    cases = gen_cases("reader", ["c16-src", 20000 if q else 200000], ctx.seed, profile=PROFILE)
+    cases = [(r, i, "spec-literal-equal") for (r, i, _) in cases]
+    md, sd = correspond(ctx, "spelling-as-source-literal", cases,
+                        lambda req, impl: impl.startswith("ok ") and is_num(impl.split(" ")[-1]),
+                        spec_equal=spec_equal)
+    settle(ctx, md, sd)
     cases = gen_cases("reader", ["c16-proc", 40000 if q else 400000], ctx.seed, profile=PROFILE)
     md, sd = correspond(ctx, "procedures-argument-checks-and-spellings", cases, nontrivial)
     settle(ctx, md, sd)
@@ -129,7 +179,9 @@ def run(ctx):
              "representation, reduced 32-bit ratios of both signs, doubles by bit pattern; radix 2/8/10/16 for exact, "
              "10 for doubles; (number->string z r) then (string->number s r) evaluated by the VM; also the printed "
              "form as a #b/#o/#d/#x literal vs string->number, and the two procedures on random argument lists "
-             "(arity, types, radix 0/1/37/2^32+10, spellings incl. underscores, signs, slashes, exponents); "
+             "(arity, types, radix 0/1/37/2^32+10, spellings incl. underscores, signs, slashes, exponents); decimal "
+             "spellings with a signed exponent (printer output, {:e} forms with E/+ variants, near-miss family) as "
+             "unprefixed source literals vs string->number; "
              "non-trivial = a string/number came back; distinct by request text",
         trusted_extra=["FloatText hypotheses (not proved): shape of Rust float formatting, parse∘print = id on finite doubles"],
         profile=PROFILE)
